@@ -485,10 +485,17 @@ def run_xy(ctx, lines, expect):
                 (x2 if rng.random() < 0.5 else y2)[rng.randrange(len(x2))] = rng.choice([0, 1, 2])
         else:
             x2, y2 = axes()
+        if rng.random() < 0.25:
+            # the two objects hold the very same ndarray objects (copy.copy, two XYData over one pair of arrays, copy=False): equality is
+            # still equality of the values - an axis holding NaN is not equal to itself
+            x2, y2 = x1, y1
         U = ["", "A", "V"]
         u = [rng.choice(U) for _ in range(2)]
         v = list(u) if rng.random() < 0.6 else [rng.choice(U) for _ in range(2)]
         a = XYData(x1, y1, x_units=u[0], y_units=u[1]); b = XYData(x2, y2, x_units=v[0], y_units=v[1])
+        if x2 is x1 and u == v and rng.random() < 0.5:
+            import copy as _copy
+            b = _copy.copy(a)
         lst = lambda z: z.tolist()  # noqa: E731
         req = (len(x1) == len(x2) and all(p == q for p, q in zip(lst(x1), lst(x2))) and len(y1) == len(y2)
                and all(p == q for p, q in zip(lst(y1), lst(y2))) and u == v)
